@@ -1,0 +1,79 @@
+//go:build verif
+// +build verif
+
+package store
+
+import (
+	"fmt"
+	"reflect"
+	"strings"
+
+	"github.com/LemoFoundationLtd/lemochain-core/chain/types"
+)
+
+// VerifTrieShape prints, read-only, the node/array graph reachable from the
+// given PatriciaTrie roots (C09 correspondence with the Lean heap model).
+// Nodes and children backing arrays are numbered by first visit (pre-order,
+// roots in the given order), so the text is canonical:
+//   first visit:  n<id>{<key>|<dye>|T or -|<balance> or _|a<arr>:<len>/<cap>[<child> ...]}
+//   later visit:  n<id>
+// An array of capacity 0 is printed as "a-".
+func VerifTrieShape(tries []*PatriciaTrie) string {
+	nodeID := map[*PatriciaNode]int{}
+	arrID := map[uintptr]int{}
+	var sb strings.Builder
+	var visit func(n *PatriciaNode)
+	visit = func(n *PatriciaNode) {
+		if n == nil {
+			sb.WriteString("nil")
+			return
+		}
+		if id, ok := nodeID[n]; ok {
+			fmt.Fprintf(&sb, "n%d", id)
+			return
+		}
+		id := len(nodeID)
+		nodeID[n] = id
+		term := "-"
+		if n.terminal {
+			term = "T"
+		}
+		data := "_"
+		if n.data != nil {
+			if a, ok := n.data.(*types.AccountData); ok && a != nil && a.Balance != nil {
+				data = a.Balance.String()
+			} else {
+				data = "?"
+			}
+		}
+		arr := "a-"
+		if cap(n.children) > 0 {
+			p := reflect.ValueOf(n.children).Pointer()
+			aid, ok := arrID[p]
+			if !ok {
+				aid = len(arrID) + 1
+				arrID[p] = aid
+			}
+			arr = fmt.Sprintf("a%d", aid)
+		}
+		fmt.Fprintf(&sb, "n%d{%s|%d|%s|%s|%s:%d/%d[", id, n.key, n.dye, term, data, arr, len(n.children), cap(n.children))
+		for i, c := range n.children {
+			if i > 0 {
+				sb.WriteByte(' ')
+			}
+			visit(c)
+		}
+		sb.WriteString("]}")
+	}
+	for i, t := range tries {
+		if i > 0 {
+			sb.WriteByte(' ')
+		}
+		if t == nil {
+			sb.WriteString("nil")
+			continue
+		}
+		visit(t.root)
+	}
+	return sb.String()
+}
